@@ -46,6 +46,7 @@ K_TYPES = "structural-equivalence:result-types-ignored"
 K_FWD = "structural-equivalence:forward-reference-falls-back-to-identity"
 K_PARENT = "structural-equivalence:attached-root-op-compared-by-parent-block"
 K_OI_ZIP = "cse:OperationInfo.__eq__:ValueError-on-different-region-count"
+K_ATTR_IRDL = "attribute-eq:irdl-file-defined-attribute-ignores-parameters"
 
 
 # ------------------------------------------------------------------------------------------------ model of the relation
@@ -143,6 +144,62 @@ def model_equiv(a, b, *, types=True, prereg=True, parent_bug=False):
     return region_eq(a, b)
 
 
+def attr_eq_culprits(a, b):
+    """Attribute pairs met at corresponding positions of two same-shaped trees that are different in canonical form
+    although Attribute.__eq__ calls them equal. Returns the innermost such pairs as [(x, y)]."""
+    from xdsl.ir import Data, ParametrizedAttribute
+    from xv.canon import canon_attr
+    from xv.genir import collect
+    out = []
+
+    def children(x):
+        from xdsl.ir import Attribute
+        if isinstance(x, ParametrizedAttribute):
+            return [p for p in x.parameters if isinstance(p, Attribute)]
+        if isinstance(x, Data):
+            d = x.data
+            if isinstance(d, (tuple, list)):
+                return [p for p in d if isinstance(p, Attribute)]
+            if isinstance(d, dict):
+                return [d[k] for k in sorted(d) if isinstance(d[k], Attribute)]
+        return []
+
+    def inner(x, y):
+        if canon_attr(x) == canon_attr(y) or not (x == y):
+            return
+        cx, cy = children(x), children(y)
+        if type(x) is type(y) and len(cx) == len(cy):
+            n = len(out)
+            for p, q in zip(cx, cy):
+                inner(p, q)
+            if len(out) > n:
+                return
+        out.append((x, y))
+
+    oa, ba, _, _ = collect(a)
+    ob, bb, _, _ = collect(b)
+    for x, y in zip(oa, ob):
+        for r, s in zip(x.results, y.results):
+            inner(r.type, s.type)
+        for d, e in ((x.attributes, y.attributes), (x.properties, y.properties)):
+            for k in d:
+                if k in e:
+                    inner(d[k], e[k])
+    for x, y in zip(ba, bb):
+        for p, q in zip(x._args, y._args):
+            inner(p.type, q.type)
+    return out
+
+
+def is_irdl_dynamic_attr(x):
+    """ParametrizedAttribute subclass created at run time from an .irdl file: the dataclass-generated __eq__ it
+    inherits has no fields to compare, so parameters are ignored."""
+    import dataclasses
+    from xdsl.ir import ParametrizedAttribute
+    return isinstance(x, ParametrizedAttribute) and len(x.parameters) > 0 and not dataclasses.fields(type(x)) \
+        and type(x).__module__ == "xdsl.ir.core"
+
+
 def _bops(b):
     out = []
     o = b._first_op
@@ -159,6 +216,32 @@ def _rblocks(r):
         out.append(b)
         b = b._next_block
     return out
+
+
+def _model_real_attr_eq(a, b):
+    """the relation of the property, except that attributes and types are compared with the real Attribute.__eq__"""
+    import xv.canon as cn
+    orig = cn.canon_attr
+
+    class Box:
+        __slots__ = ("a",)
+
+        def __init__(self, a):
+            self.a = a
+
+        def __eq__(self, o):
+            return self.a == o.a
+
+        def __lt__(self, o):
+            return False
+
+        def __hash__(self):
+            return 0
+    cn.canon_attr = Box
+    try:
+        return model_equiv(a, b)
+    finally:
+        cn.canon_attr = orig
 
 
 class Violation(Exception):
@@ -249,6 +332,12 @@ def decide_pair(a, b, how, C, strict_model=True):
                          if model_equiv(x, y, **kw) == real]
             if len(explained) == 1:
                 key = explained[0]
+            elif not explained and real and not oracle:
+                cul = attr_eq_culprits(x, y)
+                if cul and all(is_irdl_dynamic_attr(p) for p, _ in cul) and _model_real_attr_eq(x, y):
+                    key = K_ATTR_IRDL
+                elif cul and _model_real_attr_eq(x, y):
+                    key = "structural-equivalence:Attribute.__eq__-equates-different:" + type(cul[0][0]).__name__
             elif len(explained) > 1:
                 # several single defects give the observed answer; prefer the one whose precondition holds
                 from xdsl.ir import Operation
@@ -766,6 +855,17 @@ def sched_job(job, res, C, sets, viol, nontrivial):
             wtext = genir.spec_text(payload)
         before = canon_ir(module, normalise=False)
         picks = rng.sample(classes, min(job.get("passes_per_module", 5), len(classes))) + ([rng.choice(common)] if common else [])
+        if kind == "corpus":
+            cmap = dict(classes)
+            try:
+                full = open(corpus.REPO + "/" + rel, encoding="utf-8").read()
+            except OSError:
+                full = ""
+            for rl in corpus.run_lines(full):
+                for nm in re.findall(r"[A-Za-z][A-Za-z0-9_-]+", " ".join(re.findall(r"(?:-p|--passes)[= ]\s*'?\"?([^ |]+)", rl))):
+                    if nm in cmap and (nm, cmap[nm]) not in picks:
+                        picks.append((nm, cmap[nm]))
+                        bump("schedule_space_passes_from_run_lines")
         for pname, cls in picks:
             captured = {}
             orig = cls.apply
